@@ -833,7 +833,10 @@ func (vc *VC) copyRow(st *State, base, off, hint string) string {
 	row := sel(st.H["H8"], base)
 	if off != bvLit(64, 0) {
 		nr := vc.fresh(rowSort(SBV8), "row")
-		vc.assume(fmt.Sprintf("(forall ((i!q (_ BitVec 64))) (! (= (select %s i!q) (select %s (bvadd %s i!q))) :pattern ((select %s i!q))))", nr, row, off, nr))
+		src := row
+		gen := func(i string) string { return eq(sel(nr, i), sel(src, app("bvadd", off, i))) }
+		vc.assume(fmt.Sprintf("(forall ((i!q (_ BitVec 64))) (! %s :pattern ((select %s i!q))))", gen("i!q"), nr))
+		vc.addHyp(gen)
 		row = nr
 	}
 	st.H["H8"] = vc.def(heapSort(SBV8), sto(st.H["H8"], ref, row), "H8")
